@@ -280,7 +280,22 @@ Definition dumb_adapt (n0 : nat) (G : nxg onode) : optg := adapt_gen n0 (fun _ n
 Definition dumb_restore (g : optg) : nxg onode := restore_gen (fun nd => nd) g.
 
 (* ---- DirectAdapter: deepcopy, then rewrite __class__ of the graph and of every node ---- *)
-Record cgraph := mkC { gid : nat; gcls : nat; gnodes : optg }.
+(* the postprocess_nodes callback held by the graph (LinkedGraph._postprocess_nodes), fired by
+   structural edits: the default static no-op, a plain function (atomic for deepcopy, no state),
+   a bound method of an object (normally the domain graph itself: self = its identity), or a
+   stateful callable object *)
+Inductive post := PostDefault | PostFun (f : nat) | PostBound (self : nat) | PostObj (id : nat).
+
+(* the mutable object an edit of the graph writes to through the callback *)
+Definition post_ids (p : post) : list nat :=
+  match p with PostBound i => [i] | PostObj i => [i] | _ => [] end.
+
+(* deepcopy of the callback: a bound method is re-bound to the copy of its self (the memo maps the
+   graph to its copy), a callable object is copied *)
+Definition copy_post (n0 : nat) (p : post) : post :=
+  match p with PostBound i => PostBound (n0 + i) | PostObj i => PostObj (n0 + i) | _ => p end.
+
+Record cgraph := mkC { gid : nat; gcls : nat; gpost : post; gnodes : optg }.
 
 Definition copy_node (n0 cls : nat) (nd : onode) : onode :=
   mkN (n0 + oid nd) (ouid nd) cls
@@ -289,7 +304,7 @@ Definition copy_node (n0 cls : nat) (nd : onode) : onode :=
       (n0 + olid nd) (opar nd).
 
 Definition direct_convert (n0 gcls' ncls' : nat) (g : cgraph) : cgraph :=
-  mkC (n0 + gid g) gcls' (map (copy_node n0 ncls') (gnodes g)).
+  mkC (n0 + gid g) gcls' (copy_post n0 (gpost g)) (map (copy_node n0 ncls') (gnodes g)).
 
 (* class tag 0 = OptGraph / OptNode *)
 Definition direct_adapt (n0 : nat) (g : cgraph) : cgraph := direct_convert n0 0 0 g.
@@ -304,7 +319,7 @@ Definition node_ids (nd : onode) : list nat :=
   oid nd :: olid nd :: vids (oname nd) ++
   match oparams nd with Some (i, a) => i :: attrs_ids a | None => [] end.
 Definition opt_ids (g : optg) : list nat := flat_map node_ids g.
-Definition cgraph_ids (g : cgraph) : list nat := gid g :: opt_ids (gnodes g).
+Definition cgraph_ids (g : cgraph) : list nat := gid g :: post_ids (gpost g) ++ opt_ids (gnodes g).
 Definition nx_ids (G : nxg nxattrs) : list nat :=
   flat_map (fun ka => fst (snd ka) :: attrs_ids (snd (snd ka))) (nodes G).
 
@@ -810,9 +825,20 @@ Definition holds_opt_dumb (g : optg) (go : optg) : bool :=
 
 (* ---- DirectAdapter (one conversion step) / IdentityAdapter ---- *)
 Definition canon_cgraph (n0 : nat) (g : cgraph) : cgraph :=
-  mkC (cap n0 (gid g)) (gcls g) (map (canon_node n0 []) (gnodes g)).
+  mkC (cap n0 (gid g)) (gcls g)
+      (match gpost g with PostBound i => PostBound (cap n0 i) | PostObj i => PostObj (cap n0 i) | p => p end)
+      (map (canon_node n0 []) (gnodes g)).
+Definition post_same (a b : post) : bool :=
+  match a, b with
+  | PostDefault, PostDefault => true
+  | PostFun f, PostFun f' => Nat.eqb f f'
+  | PostBound i, PostBound j => Nat.eqb i j
+  | PostObj i, PostObj j => Nat.eqb i j
+  | _, _ => false
+  end.
 Definition cgraph_same (a b : cgraph) : bool :=
-  Nat.eqb (gid a) (gid b) && Nat.eqb (gcls a) (gcls b) && optg_same (gnodes a) (gnodes b).
+  Nat.eqb (gid a) (gid b) && Nat.eqb (gcls a) (gcls b) && post_same (gpost a) (gpost b) &&
+  optg_same (gnodes a) (gnodes b).
 
 (* gc / nc: class tags the conversion writes (0 0 for adapt, the domain classes for restore) *)
 Definition agree_direct (n0 gc nc : nat) (x y : cgraph) : bool :=
@@ -832,6 +858,13 @@ Definition holds_direct (n0 gc nc : nat) (x y : cgraph) : bool :=
   same_content (gnodes x) (gnodes y) &&
   Nat.eqb (gcls y) gc && forallb (fun nd => Nat.eqb (ocls nd) nc) (gnodes y) &&
   all_fresh n0 (cgraph_ids y).
+
+(* ... and behaviourally: a structural edit of the output (which fires its postprocess_nodes
+   callback) left every observable of the input as it was, and an edit of the input left the
+   output as it was (both observed by the harness as before / after snapshots incl. the state the
+   callbacks write to) *)
+Definition holds_direct_edits (n0 gc nc : nat) (x y : cgraph) (input_intact output_intact : bool) : bool :=
+  holds_direct n0 gc nc x y && input_intact && output_intact.
 
 Definition agree_identity (g a r : cgraph) : bool :=
   cgraph_same (identity_adapt g) a && cgraph_same (identity_restore g) r.
